@@ -279,6 +279,8 @@ func wireFault(t *rapid.T, d *m.Design, meth *m.Method, c *caseRec) bool {
 				opts = append(opts, []harness.Edit{{Op: "del_query", Name: wireOf(h.Query, f.Name)}})
 			case "header":
 				opts = append(opts, []harness.Edit{{Op: "del_header", Name: wireOf(h.Headers, f.Name)}})
+			case "cookie":
+				opts = append(opts, []harness.Edit{{Op: "del_cookie", Name: wireOf(h.Cookies, f.Name)}})
 			case "body":
 				if bodyObject {
 					opts = append(opts, []harness.Edit{{Op: "json_del", Name: f.Name}})
@@ -310,7 +312,11 @@ func wireFault(t *rapid.T, d *m.Design, meth *m.Method, c *caseRec) bool {
 
 func runCase(b *rt.Built, dc *docs, s *m.Service, meth *m.Method, c *caseRec) string {
 	d := b.Design
-	if hasRequiredCookie(d, meth) && c.Kind != "valid" && kf.Open("C04-required-cookie-discards-earlier-errors") {
+	if hasRequiredCookie(d, meth) && c.Kind != "valid" && kf.Open("C04-required-cookie-discards-earlier-errors") &&
+		!(c.Kind == "mutant" && len(meth.HTTP.Cookies) == 1 && meth.HTTP.Cookies[0].Attr == c.Fault.Top) &&
+		!(c.Kind == "wire" && len(meth.HTTP.Cookies) == 1 && len(c.Edits) == 1 && c.Edits[0].Op == "del_cookie") {
+		// (the finding loses errors found before a required cookie is read; a fault in
+		// the method's only cookie is not affected and stays in the search)
 		stats.Excluded("C04-required-cookie-discards-earlier-errors")
 		return ""
 	}
